@@ -54,6 +54,134 @@ def versions(maxlen, styles):
     return out
 
 
+# ---- end-to-end: the range a block of an if / elif / else chain is checked against ------------------------------------------
+# "the range algebra behind meson_version feature checks is sound": a block that uses a feature introduced in X must be warned about
+# whenever some version of the project's declared range that is older than X runs that block.  Every chain of <= 2 clauses (+ else)
+# over the clause alphabet below x declared range is configured with the real `meson setup`; the block that runs contains
+# 'a'.splitlines() (new in 1.2.0).  For every probe version v of the declared range the reference decides which block v runs
+# (version conditions by the reference order, other conditions are constants); if an older-than-1.2.0 probe runs the block that
+# ran here, the FeatureNew warning must be printed.  (The converse is not demanded: warning too often is imprecise, not unsound.)
+FR_FEATURE_SINCE = '1.2.0'
+FR_PROBES = ['0.40', '0.50', '0.55', '0.60', '0.61', '1.0', '1.1.9', '1.2.0', '1.3', '1.5', '1.6', '90', '99.0', '99.1']
+FR_ATOMS = [('ge', '99.0'), ('lt', '99.0'), ('ge', '0.60'), ('lt', '0.60'), ('ge', '1.5')]
+FR_SP = {'ge': '>=', 'lt': '<'}
+
+
+def fr_clauses(thorough=True):
+    out = [('T',), ('F',)]
+    for a in (FR_ATOMS if thorough else FR_ATOMS[:3]):
+        out += [('vc', a), ('not', a), ('or', a, 'T'), ('or', a, 'F'), ('and', a, 'T'), ('eqf', a)]
+    return out
+
+
+def fr_text(c):
+    if c[0] == 'T':
+        return 'true'
+    if c[0] == 'F':
+        return 'false'
+    vc = "meson.version().version_compare('%s%s')" % (FR_SP[c[1][0]], c[1][1])
+    return {'vc': vc, 'not': 'not ' + vc, 'or': vc + ' or ' + ('true' if c[-1] == 'T' else 'false'),
+            'and': vc + ' and true', 'eqf': vc + ' == false'}[c[0]]
+
+
+def fr_eval(c, v):
+    if c[0] in 'TF':
+        return c[0] == 'T'
+    a = REF_HOLDS[c[1][0]](ref_cmp(v, c[1][1]))
+    return {'vc': a, 'not': not a, 'or': a or c[-1] == 'T', 'and': a, 'eqf': not a}[c[0]]
+
+
+def fr_block(chain, has_else, v):
+    for i, c in enumerate(chain):
+        if fr_eval(c, v):
+            return i
+    return len(chain) if has_else else None
+
+
+def fr_program(chain, has_else, decl):
+    lines = ["project('p'%s)" % (", meson_version: '%s'" % decl if decl else '')]
+    for i, c in enumerate(chain):
+        lines += ['%s %s' % ('if' if i == 0 else 'elif', fr_text(c)), "  message('BLOCK%d')" % i, "  x = 'a'.splitlines()"]
+    if has_else:
+        lines += ['else', "  message('BLOCK%d')" % len(chain), "  x = 'a'.splitlines()"]
+    lines.append('endif')
+    return '\n'.join(lines) + '\n'
+
+
+def fr_jobs(thorough):
+    cl = fr_clauses(thorough)
+    decls = ['>=0.50', '>=1.5', '>=0.50, <1.0'] if thorough else ['>=0.50', '>=1.5']
+    chains = [(a,) for a in cl] + [(a, b) for a in cl for b in cl]
+    if thorough:
+        simple = [c for c in cl if c[0] in ('T', 'F', 'vc', 'not')]
+        chains += [(a, b, c) for a in simple for b in simple for c in simple]
+    return [(ch, e, d) for ch in chains for e in (False, True) for d in decls]
+
+
+def fr_run(job):
+    import os, shutil, tempfile
+    from verif import mesonproc as mp
+    from verif.core import scratch_root
+    chain, has_else, decl = job
+    root = tempfile.mkdtemp(prefix='c19fr.', dir=scratch_root())
+    try:
+        text = fr_program(chain, has_else, decl)
+        with open(os.path.join(root, 'meson.build'), 'w') as f:
+            f.write(text)
+        r = mp.run_meson(['setup', '--backend=none', 'b'], root, timeout=300)
+        out = r.out + r.err
+        ran = [int(m) for m in re.findall(r'Message: BLOCK([0-9]+)', out)]
+        warned = "uses feature introduced in '1.2.0'" in out
+        return job, r.rc, ran, warned, text, out[-600:]
+    finally:
+        shutil.rmtree(root, ignore_errors=True)
+
+
+def fr_form(chain, blk):
+    """narrow class of a lost warning: the shape of the condition whose block ran ('else' for the else block), and whether an
+    earlier clause of the chain contained a version condition"""
+    own = 'else' if blk >= len(chain) else {'T': 'const', 'F': 'const'}.get(chain[blk][0], chain[blk][0])
+    earlier = any(c[0] not in 'TF' for c in chain[:blk])
+    return own + (':after-version-clause' if earlier and own in ('const', 'else') else '')
+
+
+def part_featurerange(ck):
+    from mesonbuild import coredata
+    here = coredata.version
+    jobs = fr_jobs(ck.thorough)
+    n = lost = expected_warn = warned_n = 0
+    blocks_seen = set()
+    for job, rc, ran, warned, text, tail in pmap(fr_run, jobs):
+        chain, has_else, decl = job
+        n += 1
+        if rc != 0:
+            ck.violation('C19:featurerange:setup-failed', 'meson setup failed on %r: %s' % (text, tail[-300:]), {'program': text})
+            continue
+        want_blk = fr_block(chain, has_else, here)
+        got_blk = ran[0] if ran else None
+        if want_blk != got_blk or len(ran) > 1:
+            ck.violation('C19:featurerange:wrong-block', 'at %s block %r should run, ran %r: %r' % (here, want_blk, ran, text), {'program': text})
+            continue
+        if got_blk is None:
+            continue
+        blocks_seen.add((len(chain), has_else, got_blk))
+        declared = [v for v in FR_PROBES if all(REF_HOLDS[{'>=': 'ge', '<': 'lt'}[re.match('[<>=]+', c.strip()).group(0)]](
+            ref_cmp(v, re.sub('^[<>=]+', '', c.strip()))) for c in decl.split(','))]
+        witness = [v for v in declared if fr_block(chain, has_else, v) == got_blk and ref_cmp(v, FR_FEATURE_SINCE) < 0]
+        warned_n += warned
+        if witness:
+            expected_warn += 1
+            if not warned:
+                lost += 1
+                ck.violation('C19:featurerange:lost-warning:' + fr_form(chain, got_blk),
+                             'block %d of %r runs at version %s (inside the declared range %r) which is older than %s, but no FeatureNew warning was printed'
+                             % (got_blk, text, witness[0], decl, FR_FEATURE_SINCE), {'program': text, 'witness_version': witness[0]})
+    ck.part('featurerange', programs=n, warning_required=expected_warn, warned=warned_n, lost=lost, clause_forms=len(fr_clauses(ck.thorough)),
+            block_positions=len(blocks_seen))
+    ck.require(expected_warn > 50 and warned_n < n and len(blocks_seen) >= 6, 'featurerange family is vacuous')
+    return n
+
+
 VS = []
 
 
@@ -346,7 +474,8 @@ def main():
                              {'cond': c, 'minimum': m})
     ck.part('cond_with_min', calls=mc)
 
-    total = evals + vc + cl + rc + ic * 2 + wc + mc
+    frn = part_featurerange(ck) if ck.want('featurerange') else 0
+    total = evals + vc + cl + rc + ic * 2 + wc + mc + frn
     ck.assume('reference order is my transcription of the RPM-style rule stated in the property')
     ck.assume('Range membership is probed on %d versions covering every bound and every gap between the 6 bounds' % len(probes))
     ck.finish(evaluations=total, distinct_nontrivial=len(outcome_classes),
